@@ -88,19 +88,21 @@ theorem stdinStep_frame (s : S) :
   unfold stdinStep
   (repeat' split) <;> simp_all
 
-theorem streamInv_timer (s : S) (h : StreamInv s) : StreamInv (timerStep s) := by
+theorem streamInv_kill (s : S) (h : StreamInv s) : StreamInv (killEffect s) := by
   obtain ⟨ho, he⟩ := h
+  unfold killEffect; split
+  · exact ⟨ho, he⟩
+  · exact ⟨pipeInv_closeIfUnheld _ _ _ _ ho, pipeInv_closeIfUnheld _ _ _ _ he⟩
+
+theorem streamInv_timer (s : S) (h : StreamInv s) : StreamInv (timerStep s) := by
   unfold timerStep
   split
-  · exact ⟨ho, he⟩
+  · exact h
   · split
-    · exact ⟨ho, he⟩
-    · simp only []
-      split
-      · exact ⟨ho, he⟩
-      · exact ⟨pipeInv_closeIfUnheld _ _ _ _ ho, pipeInv_closeIfUnheld _ _ _ _ he⟩
-    · exact ⟨ho, he⟩
-    · exact ⟨ho, he⟩
+    · exact h
+    · exact streamInv_kill s h
+    · exact h
+    · exact h
 
 theorem streamInv_step (s : S) (a : Actor) (h : StreamInv s) : StreamInv (step s a) := by
   cases a with
@@ -175,9 +177,17 @@ theorem script_step (s : S) (a : Actor) :
             (readerStep_fields s.readSize s.err s.errPc s.capErr).2]
   | timer =>
     simp only [step, timerStep]
-    (repeat' split) <;>
-      simp [S.outScript, S.errScript, (closeIfUnheld_fields _ s.out).1, (closeIfUnheld_fields _ s.out).2,
-            (closeIfUnheld_fields _ s.err).1, (closeIfUnheld_fields _ s.err).2]
+    split
+    · simp
+    · split
+      · simp [S.outScript, S.errScript]
+      · simp only [S.outScript, S.errScript, killEffect]
+        split
+        · simp
+        · simp [(closeIfUnheld_fields s s.out).1, (closeIfUnheld_fields s s.out).2,
+                (closeIfUnheld_fields s s.err).1, (closeIfUnheld_fields s s.err).2]
+      · simp [S.outScript, S.errScript]
+      · simp
 
 theorem script_run (s : S) (evs : List Ev) :
     (run s evs).outScript = s.outScript ∧ (run s evs).errScript = s.errScript := by
